@@ -11,6 +11,7 @@ import (
 	"regexp"
 	"strings"
 	"sync"
+	"verif/internal/props/c01"
 
 	minify "github.com/tdewolff/minify/v2"
 	"github.com/tdewolff/minify/v2/css"
@@ -403,7 +404,7 @@ func (j job) desc() string {
 // Run executes C09.
 func Run(c *core.Check) {
 	limit := c.Pick(1500, 120000)
-	c.Rule = fmt.Sprintf("(i) every file of tests/*/corpus and _benchmarks (all six media types) under the default and an all-non-default registry; (ii) for every such file of at most %d bytes: every deletion of one byte and every replacement of one byte by each of 14 structural bytes (< > \" ' / \\ & ; = ( ) { } newline) (above 20 kB every 11th position); (iii) splices of every ordered pair of small files of the same type at every 16th offset. Only inputs the minifier accepts count (evaluations); the output must be valid by an independent parser (acorn for JS incl. scripts embedded in HTML, encoding/json, own XML reader + strict path-data parser, own CSS tokenizer: no new bad tokens, balanced brackets stay balanced; HTML: raw-text elements end where they ended) and must be accepted again. Non-trivial = accepted input whose output differs from it", limit)
+	c.Rule = fmt.Sprintf("(i) every file of tests/*/corpus and _benchmarks (all six media types) under the default and an all-non-default registry; (ii) for every such file of at most %d bytes: every deletion of one byte and every replacement of one byte by each of 14 structural bytes (< > \" ' / \\ & ; = ( ) { } newline) (above 20 kB every 11th position); (iii) splices of every ordered pair of small files of the same type at every 16th offset; (iv) every program of the C01 grammar families (stand-alone, and the literal family inside an HTML script element). Only inputs the minifier accepts count (evaluations); the output must be valid by an independent parser (acorn for JS incl. scripts embedded in HTML, encoding/json, own XML reader + strict path-data parser, own CSS tokenizer: no new bad tokens, balanced brackets stay balanced; HTML: raw-text elements end where they ended) and must be accepted again. Non-trivial = accepted input whose output differs from it", limit)
 	c.Assumptions = []string{"acorn 8.16 (script, then module goal), encoding/json, the XML/CSS/path readers of /verif", "inputs rejected by the minifier are outside the premise"}
 	pool, err := jsoracle.NewPool(core.Workers())
 	if err != nil {
@@ -494,6 +495,32 @@ func Run(c *core.Check) {
 		}
 		if i%50021 == 9 {
 			c.Sample(map[string]any{"input": j.desc(), "type": j.f.Type})
+		}
+	})
+	// (iv) generated programs: the complete program grammar of C01 (all families at this tier), as a
+	// stand-alone script and — the literal family — inside an HTML script element; only validity
+	// and re-acceptance are decided here, behaviour is C01's business
+	gfam := "generated-js-programs"
+	c.ParallelStream(gfam, func(emit func(string) bool) { c01.Programs(c, emit) }, func(idx uint64, s string) {
+		k := strings.IndexByte(s, 0)
+		famName, text := s[:k], s[k+1:]
+		w := <-workers
+		defer func() { workers <- w }()
+		v := validator{w}
+		check := func(typ, in string) {
+			kind, what, acc := v.CheckOne(mdef, typ, []byte(in), false)
+			if !acc && kind == "" {
+				return
+			}
+			c.Count(1)
+			c.AddFamily(gfam, 1, 1)
+			if kind != "" {
+				c.Fail(core.Failure{Family: typ, Input: in, Config: "default", Kind: kind, What: what, Order: idx, Extra: map[string]any{"input_bytes": in}})
+			}
+		}
+		check("application/javascript", text)
+		if strings.HasPrefix(famName, "F7") {
+			check("text/html", "<script>"+text+"</script><p>after</p>")
 		}
 	})
 	c.Extra["accepted_inputs"] = accepted
